@@ -362,3 +362,251 @@ Proof.
   - apply forallb_app_true; [apply forallb_app_true; [apply Hup; assumption|cbn [forallb]; rewrite Hdomev; reflexivity]|].
     cbn [forallb]. erewrite Hsb; eauto.
 Qed.
+
+Lemma concat_all_nil {A} (ll : list (list A)) : all_nil ll -> concat ll = [].
+Proof.
+  induction ll as [|l ll IH]; intro H; [reflexivity|]. cbn.
+  rewrite (H 0%nat l eq_refl). cbn. apply IH. intros i x Hx. exact (H (S i) x Hx).
+Qed.
+
+Lemma scripted_eq : forall r k, scripted r k = snd (script_nth (r_script r) k) /\ scripted_lat r k = fst (script_nth (r_script r) k).
+Proof.
+  intros r k. unfold scripted, scripted_lat, script_nth. generalize (r_script r) as l. revert k.
+  induction k as [|k IH]; intros [|[la o] l]; cbn; auto.
+Qed.
+
+Lemma propose_unblind_length : forall cf e d, length (o_unblind (propose cf e d)) = length (e_relays e).
+Proof.
+  intros cf e d. unfold propose. destruct (sign_phase cf e d) as [evs [[p sp]|]].
+  2:{ cbn. unfold no_calls. apply map_length. }
+  destruct (deliver_phase_course cf e evs sp) as [Hb|Hb _|w a res Hb Ha Hc plans fd _ _ Hu _].
+  - cbn. apply map_length.
+  - cbn. apply map_length.
+  - rewrite Hu. unfold calls_of. rewrite map_length. unfold plans. apply plans_from_length.
+Qed.
+
+Lemma count_if_in_pos {A} (f : A -> bool) l x : In x l -> f x = true -> (1 <= count_if f l)%nat.
+Proof.
+  unfold count_if; induction l as [|y l IH]; cbn; intros Hin Hf; [destruct Hin|].
+  destruct Hin as [->|Hin]; [rewrite Hf; cbn; lia|].
+  destruct (f y); cbn; [lia|apply IH; assumption].
+Qed.
+
+Lemma event_eqb_refl : forall ev, event_eqb ev ev = true.
+Proof. intro ev; apply event_eqb_spec; reflexivity. Qed.
+
+(* the signed proposal in the check's own terms *)
+Lemma expected_signed_model : forall id cf e d prep pr h sig code,
+  e_proposal e = POk pr -> p_block pr = Some h -> e_sig_block e = Some sig ->
+  signed_container (p_version pr) (p_blinded pr) = Some code ->
+  expected_signed (model_case id cf e d prep) = Some (signed_proposal pr h sig code).
+Proof.
+  intros id cf e d prep pr h sig code H1 H2 H3 H4. unfold expected_signed, model_case; cbn [c_env].
+  rewrite H1, H3, H2, H4. reflexivity.
+Qed.
+
+Lemma count_sign_block_one : forall cf e D acct h,
+  In (sign_block_event cf D acct h) (o_events (propose cf e D)) ->
+  count_events ev_sign_block (o_events (propose cf e D)) = 1%nat.
+Proof.
+  intros cf e D acct h Hin. rewrite count_events_eq, (count_ext _ _ _ ev_sign_block_eq).
+  pose proof (count_if_in_pos Proofs.C05.is_sign_block _ _ Hin eq_refl).
+  rewrite propose_events in *. pose proof (sign_phase_count_sign_block cf e D). lia.
+Qed.
+
+Lemma clause_unblind_calls : forall id cf e d prep, unblind_calls_ok (model_case id cf e d prep) = true.
+Proof.
+  intros id cf e d prep. set (c := model_case id cf e d prep).
+  destruct (run_duty_check id cf e d prep) as (Hs & Hv & Ha & Hr). fold c in Ha, Hr.
+  assert (Hobs : c_obs c = propose cf e (run_duty cf e d prep)) by (unfold c, model_case; cbn [c_obs]; apply run_parts).
+  set (D := run_duty cf e d prep) in *.
+  unfold unblind_calls_ok. rewrite Hobs. apply andb_true_iff; split.
+  { apply Nat.eqb_eq. unfold c; cbn [c_env model_case]. apply propose_unblind_length. }
+  apply forallb_forall. intros [i calls] Hin. apply indexed_in in Hin as (j & -> & Hn). cbn [Nat.add].
+  destruct calls as [|[st0 rq0] rest] eqn:Hcalls; [reflexivity|]. rewrite <- Hcalls in *.
+  assert (Hk0 : nth_error calls 0 = Some (st0, rq0)) by (rewrite Hcalls; reflexivity).
+  destruct (unblind_requests _ _ _ _ _ _ _ _ Hn Hk0) as
+    (acct & pr & h & sig & code & w & a & rl & Hacct & Hp & Hbl & Hb & Hsl & Hsig & Hcode & _ & Hev & Hau & Hcand & Hrl & Hcan & Hlen).
+  cbn [is_nil]. rewrite Hcalls at 1. cbn [is_nil orb].
+  repeat (apply andb_true_iff; split).
+  - unfold allowed_relays, c; cbn [c_env c_cfg model_case]. rewrite Hau. fold (candidates cf w a).
+    apply existsb_exists. exists j. split; [exact Hcand|apply Nat.eqb_refl].
+  - unfold c; cbn [c_env model_case]. rewrite Hrl. exact Hcan.
+  - apply Nat.leb_le. exact Hlen.
+  - unfold proposal_blinded, c; cbn [c_env model_case]. rewrite Hp. exact Hbl.
+  - apply Nat.eqb_eq. eapply count_sign_block_one; eauto.
+  - rewrite <- Hbl in Hcode. unfold c. rewrite (expected_signed_model id cf e d prep pr h sig code Hp Hb Hsig Hcode).
+    apply forallb_forall. intros [st rq] Hin. apply In_nth_error in Hin as (k & Hk).
+    destruct (unblind_requests _ _ _ _ _ _ _ _ Hn Hk) as
+      (acct' & pr' & h' & sig' & code' & _ & _ & _ & _ & Hp' & Hbl' & Hb' & _ & Hsig' & Hcode' & Hrq & _).
+    rewrite Hp in Hp'; injection Hp' as <-. rewrite Hb in Hb'; injection Hb' as <-.
+    rewrite Hsig in Hsig'; injection Hsig' as <-. rewrite Hbl in *. rewrite Hcode in Hcode'; injection Hcode' as <-.
+    cbn [fst snd]. destruct Hrq as [-> | (-> & t & sp' & Hsub & Hlt)].
+    + apply orb_true_iff; left. apply ureq_eqb_spec; reflexivity.
+    + apply orb_true_iff; right. rewrite Hsub.
+      apply andb_true_iff; split; [apply N.ltb_lt; exact Hlt|]. apply ureq_eqb_spec. reflexivity.
+Qed.
+
+(* the request built from a signed blinded bellatrix..deneb block has its one container, so an
+   echoing relay has something to echo *)
+Lemma blinded_request_conts : forall pr h sig code fc,
+  signed_container (p_version pr) true = Some code -> full_container (p_version pr) = Some fc ->
+  p_blinded pr = true ->
+  u_conts (unblind_request (signed_proposal pr h sig code))
+  = [(code, {| sb_hdr := Some h; sb_sig := sig; sb_blobs := signed_blobs pr |})].
+Proof.
+  intros pr h sig code fc Hc Hf Hbl. unfold unblind_request, signed_proposal; cbn [sp_conts u_conts filter fst].
+  assert (Hb : blinded_code code = true).
+  { unfold full_container in Hf.
+    destruct (p_version pr =? VBellatrix) eqn:E3.
+    { apply N.eqb_eq in E3. rewrite E3 in Hc. vm_compute in Hc. injection Hc as <-. reflexivity. }
+    destruct (p_version pr =? VCapella) eqn:E4.
+    { apply N.eqb_eq in E4. rewrite E4 in Hc. vm_compute in Hc. injection Hc as <-. reflexivity. }
+    destruct (p_version pr =? VDeneb) eqn:E5; [|discriminate].
+    apply N.eqb_eq in E5. rewrite E5 in Hc. vm_compute in Hc. injection Hc as <-. reflexivity. }
+  rewrite Hb. reflexivity.
+Qed.
+
+Lemma response_ok : forall req o b0 rest, u_conts req = b0 :: rest -> is_ok o = true -> exists b, response req o = Some b.
+Proof.
+  intros req o b0 rest Hc Hok. destruct o; try discriminate; cbn [response].
+  - eauto.
+  - unfold echo. rewrite Hc. destruct b0. eauto.
+Qed.
+
+Lemma clause_submit : forall id cf e d prep,
+  submit_ok (model_case id cf e d prep) = true /\ no_relay_no_submit_b (model_case id cf e d prep) = true.
+Proof.
+  intros id cf e d prep. set (c := model_case id cf e d prep).
+  assert (Hobs : c_obs c = propose cf e (run_duty cf e d prep)) by (unfold c, model_case; cbn [c_obs]; apply run_parts).
+  set (D := run_duty cf e d prep) in *.
+  unfold submit_ok, no_relay_no_submit_b. rewrite Hobs.
+  destruct (o_submit (propose cf e D)) as [[t sp]|] eqn:Hsub.
+  2:{ split; [reflexivity|]. cbn. rewrite orb_true_r. reflexivity. }
+  (* something is submitted: the proposal was signed *)
+  destruct (sign_phase cf e D) as [evs [[p sp0]|]] eqn:Hsp.
+  2:{ rewrite (propose_unsigned _ _ _ _ Hsp) in Hsub; discriminate. }
+  destruct (propose_signed _ _ _ _ _ _ Hsp) as (_ & acct & h0 & sig0 & code0 & _ & _ & (Hp & _) & _).
+  destruct (p_blinded p) eqn:Hbl.
+  - (* blinded *)
+    destruct (blinded_submit_from_relay _ _ _ _ _ _ Hp Hbl Hsub) as
+      (acct' & h & sig & code & fc & i & rl & calls & k & st & Hacct & Hb & Hsl & Hsig & Hcode & Hev & Hrl & Hcalls & Hk & Hok & Ht & Hdl & Hfc & Hsp').
+    cbv zeta in *.
+    pose proof (blinded_request_conts p h sig code fc Hcode Hfc Hbl) as Hconts.
+    destruct (response_ok _ _ _ _ Hconts Hok) as (b & Hresp). rewrite Hresp in Hsp'.
+    assert (Hcode' : signed_container (p_version p) (p_blinded p) = Some code) by (rewrite Hbl; exact Hcode).
+    assert (Hpb : proposal_blinded c = true) by (unfold proposal_blinded, c; cbn [c_env model_case]; rewrite Hp; exact Hbl).
+    destruct (scripted_eq rl k) as (Hsc & Hlat).
+    assert (Hdelivered : existsb (fun ic : nat * list (N * ureq) => let '(i0, calls0) := ic in
+               match nth_error (e_relays (c_env c)) i0 with
+               | None => false
+               | Some r => existsb (fun kc : nat * (N * ureq) => let '(k0, call0) := kc in
+                     match response (snd call0) (scripted r k0) with
+                     | Some b' => sblock_eqb b b' && (fst call0 + scripted_lat r k0 <=? t)
+                     | None => false end) (indexed 0 calls0)
+               end) (indexed 0 (o_unblind (propose cf e D))) = true).
+    { apply existsb_exists. exists (i, calls). split; [exact (indexed_nth _ _ 0%nat i calls Hcalls)|].
+      unfold c; cbn [c_env model_case]. rewrite Hrl.
+      apply existsb_exists. exists (k, (st, unblind_request (signed_proposal p h sig code))).
+      split; [exact (indexed_nth _ _ 0%nat k _ Hk)|]. cbn [fst snd].
+      rewrite Hsc, Hresp, Hlat. apply andb_true_iff; split; [apply sblock_eqb_spec; reflexivity|]. apply N.leb_le. lia. }
+    split.
+    + apply andb_true_iff; split; [apply Nat.eqb_eq; eapply count_sign_block_one; eauto|].
+      unfold c at 1. rewrite (expected_signed_model id cf e d prep p h sig code Hp Hb Hsig Hcode').
+      rewrite Hpb. subst sp. cbn [sp_version sp_blinded sp_conts signed_proposal negb].
+      rewrite N.eqb_refl, Hfc, N.eqb_refl. cbn [andb]. unfold delivered_by. rewrite Hobs. exact Hdelivered.
+    + rewrite Hpb. cbn [negb orb]. apply orb_true_iff; left.
+      unfold some_call_answered. rewrite Hobs.
+      apply existsb_exists. exists (i, calls). split; [exact (indexed_nth _ _ 0%nat i calls Hcalls)|].
+      unfold c; cbn [c_env model_case]. rewrite Hrl.
+      apply existsb_exists. exists (k, (st, unblind_request (signed_proposal p h sig code))).
+      split; [exact (indexed_nth _ _ 0%nat k _ Hk)|]. cbn [fst]. rewrite Hsc. exact Hok.
+  - (* not blinded *)
+    destruct (submit_is_signed_block _ _ _ _ _ _ Hp Hbl Hsub) as
+      (acct' & h & sig & code & Hacct & Hb & Hsl & Hsig & Hcode & -> & Hev & -> & Hnil).
+    assert (Hcode' : signed_container (p_version p) (p_blinded p) = Some code) by (rewrite Hbl; exact Hcode).
+    assert (Hpb : proposal_blinded c = false) by (unfold proposal_blinded, c; cbn [c_env model_case]; rewrite Hp; exact Hbl).
+    split.
+    + apply andb_true_iff; split; [apply Nat.eqb_eq; eapply count_sign_block_one; eauto|].
+      unfold c at 1. rewrite (expected_signed_model id cf e d prep p h sig code Hp Hb Hsig Hcode').
+      rewrite Hpb. apply andb_true_iff; split; [apply sproposal_eqb_spec; reflexivity|].
+      rewrite (concat_all_nil _ Hnil). reflexivity.
+    + rewrite Hpb. reflexivity.
+Qed.
+
+Lemma clause_degrades : forall id cf e d prep, degrades_ok (model_case id cf e d prep) = true.
+Proof.
+  intros id cf e d prep. set (c := model_case id cf e d prep).
+  destruct (run_duty_check id cf e d prep) as (Hs & Hv & Ha & Hr). fold c in Ha, Hr.
+  assert (Hobs : c_obs c = propose cf e (run_duty cf e d prep)) by (unfold c, model_case; cbn [c_obs]; apply run_parts).
+  set (D := run_duty cf e d prep) in *.
+  unfold degrades_ok. rewrite Hobs.
+  destruct (duty_ready c && negb (randao_of c =? 0)) eqn:Hready; [|reflexivity]. cbn [negb orb].
+  apply andb_true_iff in Hready as (Hacc & Hrn). unfold duty_ready in Hacc. rewrite <- Ha in Hacc.
+  destruct (d_account D) as [acct|] eqn:Hacct; [|discriminate].
+  rewrite <- Hr in *. assert (Hrz : d_randao D <> 0) by (apply negb_true_iff in Hrn; lia).
+  destruct (degrades_not_skips cf e D acct Hrz Hacct) as (Hin & _ & Hlocal & _).
+  repeat (apply andb_true_iff; split).
+  - apply existsb_exists. eexists; split; [exact Hin|]. rewrite Hs. unfold c; cbn [c_duty c_env c_cfg model_case].
+    apply event_eqb_refl.
+  - apply Nat.eqb_eq. rewrite count_events_eq, (count_ext _ _ _ ev_proposal_eq).
+    pose proof (count_if_in_pos Proofs.C05.is_proposal _ _ Hin eq_refl).
+    rewrite propose_events in *. pose proof (sign_phase_count_proposal cf e D). lia.
+  - unfold c; cbn [c_env c_duty model_case].
+    destruct (e_proposal e) as [|p] eqn:Hp; [reflexivity|].
+    destruct (negb (p_blinded p) && known_version (p_version p) && p_body_present p
+              && match p_block p with Some h => h_slot h =? d_slot d | None => false end
+              && e_dom_block e && match e_sig_block e with Some _ => true | None => false end) eqn:Hgood; [|reflexivity].
+    cbn [negb orb].
+    rewrite !andb_true_iff in Hgood. destruct Hgood as (((((Hnb & Hk) & Hbody) & Hblk) & Hdom) & Hsg).
+    destruct (p_block p) as [h|] eqn:Hb; [|discriminate]. apply N.eqb_eq in Hblk.
+    destruct (e_sig_block e) as [sig|] eqn:Hsig; [|discriminate]. apply negb_true_iff in Hnb.
+    assert (Hsignable : signable e D p h) by (repeat split; auto; lia).
+    destruct (Hlocal p h sig Hsignable Hnb Hdom eq_refl) as (code & _ & Hsub). rewrite Hsub. reflexivity.
+Qed.
+
+Lemma clause_other_slot : forall id cf e d prep, other_slot_refused (model_case id cf e d prep) = true.
+Proof.
+  intros id cf e d prep. set (c := model_case id cf e d prep).
+  destruct (run_duty_check id cf e d prep) as (Hs & _).
+  assert (Hobs : c_obs c = propose cf e (run_duty cf e d prep)) by (unfold c, model_case; cbn [c_obs]; apply run_parts).
+  set (D := run_duty cf e d prep) in *.
+  unfold other_slot_refused. rewrite Hobs.
+  destruct (match obtained_block c with Some h => h_slot h =? d_slot (c_duty c) | None => false end) eqn:Hslot; [reflexivity|].
+  cbn [orb].
+  assert (Hns : forall p h, ~ signable e D p h).
+  { intros p h (Hp & _ & Hb & Hsl & _). unfold obtained_block, c in Hslot; cbn [c_env c_duty model_case] in Hslot.
+    rewrite Hp, Hb in Hslot. lia. }
+  destruct (unsignable_silent cf e D Hns) as (Hev & Hnil & Hsub & _).
+  rewrite Hsub, (concat_all_nil _ Hnil). cbn [is_nil]. rewrite !andb_true_r.
+  apply Nat.eqb_eq. rewrite count_events_eq, (count_ext _ _ _ ev_sign_block_eq). apply count_if_none. exact Hev.
+Qed.
+
+Lemma clause_unready : forall id cf e d prep, unready_silent (model_case id cf e d prep) = true.
+Proof.
+  intros id cf e d prep. set (c := model_case id cf e d prep).
+  destruct (run_duty_check id cf e d prep) as (_ & _ & Ha & Hr). fold c in Ha, Hr.
+  assert (Hobs : c_obs c = propose cf e (run_duty cf e d prep)) by (unfold c, model_case; cbn [c_obs]; apply run_parts).
+  set (D := run_duty cf e d prep) in *.
+  unfold unready_silent. rewrite Hobs.
+  destruct (duty_ready c && negb (randao_of c =? 0)) eqn:Hready; [reflexivity|]. cbn [orb].
+  assert (Hun : d_randao D = 0 \/ d_account D = None).
+  { unfold duty_ready in Hready. rewrite <- Ha, <- Hr in Hready.
+    destruct (d_account D); [|right; reflexivity]. cbn in Hready. left. apply negb_false_iff in Hready. lia. }
+  rewrite (unready_duty_silent cf e D Hun). cbn [o_events o_unblind o_submit stop is_nil andb].
+  rewrite (concat_all_nil (no_calls e)); [reflexivity|]. intros i l Hn; eapply no_calls_nth; eauto.
+Qed.
+
+Theorem model_satisfies_P_b : forall id cf e d prep, P_b (model_case id cf e d prep) = true.
+Proof.
+  intros id cf e d prep. unfold P_b.
+  destruct (clause_prep_events id cf e d prep) as (H2 & H3).
+  destruct (clause_block_events id cf e d prep) as (H4 & H5).
+  destruct (clause_submit id cf e d prep) as (H7 & H8).
+  rewrite H2, H4, (clause_unblind_calls id cf e d prep), H7, H8, (clause_degrades id cf e d prep),
+    (clause_other_slot id cf e d prep), (clause_unready id cf e d prep).
+  apply Nat.leb_le in H3, H5. rewrite H3, H5.
+  assert (Hp : o_panic (c_obs (model_case id cf e d prep)) = false).
+  { unfold model_case; cbn [c_obs]. destruct (run_parts cf e d prep) as (_ & _ & ->). apply propose_no_panic. }
+  rewrite Hp. reflexivity.
+Qed.
